@@ -451,7 +451,31 @@ func genAPI(out *bufio.Writer, rng *rand.Rand, depth int, random int) int {
 }
 
 // config grid for NewSimulator (C04: refused with an error or sound)
+// presetLines: the named presets as the library returns them (Q lines): the options of the
+// command-line tool and every generator that starts from a preset depend on these tables
+func presetLines(out *bufio.Writer) int {
+	names := []string{"nop94", "88", "icws", "noptiny", "nop256", "nopnano", "bogus", "", "NOP94", "koth"}
+	for i, nm := range names {
+		c, err := gmars.PresetConfig(nm)
+		resp := "err"
+		if err == nil {
+			resp = fmt.Sprintf("%d %d %d %d %d %d %d %d", c.Mode, c.CoreSize, c.Processes, c.Cycles, c.ReadLimit, c.WriteLimit, c.Length, c.Distance)
+		}
+		fmt.Fprintf(out, "Q q%d preset %s | %s\n", i, dash(nm), resp)
+	}
+	vars := map[string]gmars.SimulatorConfig{"nop94": gmars.ConfigNOP94, "88": gmars.ConfigKOTH88, "icws": gmars.ConfigICWS88,
+		"noptiny": gmars.ConfigNopTiny, "nop256": gmars.ConfigNop256, "nopnano": gmars.ConfigNopNano}
+	k := len(names)
+	for _, nm := range []string{"nop94", "88", "icws", "noptiny", "nop256", "nopnano"} {
+		c := vars[nm]
+		fmt.Fprintf(out, "Q q%d preset %s | %d %d %d %d %d %d %d %d\n", k, nm, c.Mode, c.CoreSize, c.Processes, c.Cycles, c.ReadLimit, c.WriteLimit, c.Length, c.Distance)
+		k++
+	}
+	return k
+}
+
 func genConfig(out *bufio.Writer, rng *rand.Rand, random int) int {
+	presetLines(out)
 	vals := []uint64{0, 1, 2, 3, 1<<20 - 1, 1 << 20}
 	n := 0
 	emit := func(cfg gmars.SimulatorConfig) {
